@@ -44,6 +44,7 @@ table! {
     c01::h_token_strings,
     c02::h_compile,
     c02::h_match,
+    c02::h_base_bytes,
     c18::h_any,
     c18::h_tokens,
     c04::h_any,
@@ -51,6 +52,7 @@ table! {
     c04::h_nesting,
     c05::h_inert,
     c05::h_glob,
+    c05::h_glob_special,
     c06::h_pair,
     c06::h_triple,
     c14::h_entry,
